@@ -28,6 +28,24 @@ ENUM_VALUE_SETS = [[0, 1, 2], [1], [127], [128], [255], [256], [32767], [32768],
 TAGW = {'gint8': 1, 'guint8': 1, 'gint16': 2, 'guint16': 2, 'gint32': 4, 'guint32': 4, 'gint64': 8, 'guint64': 8}
 
 
+# an included namespace B whose record Mid embeds its record Inner by value under the unqualified name; the generated
+# namespace T has a record Inner of its own (two doubles), which must not be taken for B's
+B_GIR = ('<?xml version="1.0"?>\n<repository version="1.2" xmlns="http://www.gtk.org/introspection/core/1.0" '
+         'xmlns:c="http://www.gtk.org/introspection/c/1.0" xmlns:glib="http://www.gtk.org/introspection/glib/1.0">\n'
+         '<namespace name="B" version="1.0" shared-library="" c:identifier-prefixes="B" c:symbol-prefixes="b">\n'
+         '<record name="Inner" c:type="BInner"><field name="a" writable="1"><type name="gint8" c:type="gint8"/></field></record>\n'
+         '<record name="Mid" c:type="BMid"><field name="tag" writable="1"><type name="gint8" c:type="gint8"/></field>'
+         '<field name="in" writable="1"><type name="Inner" c:type="BInner"/></field></record>\n'
+         '<record name="Wide" c:type="BWide"><field name="w" writable="1"><type name="gdouble" c:type="gdouble"/></field>'
+         '<field name="z" writable="1"><type name="gint8" c:type="gint8"/></field></record>\n'
+         '</namespace>\n</repository>\n')
+B_C = ('typedef struct { signed char a; } BInner; typedef struct { signed char tag; BInner in; } BMid; '
+       'typedef struct { double w; signed char z; } BWide;')
+B_COQ = {'Inner': '(TStruct [MField (basic %s%%N)])' % cstr('gint8'),
+         'Mid': '(TStruct [MField (basic %s%%N); MField (TStruct [MField (basic %s%%N)])])' % (cstr('gint8'), cstr('gint8')),
+         'Wide': '(TStruct [MField (basic %s%%N); MField (basic %s%%N)])' % (cstr('gdouble'), cstr('gint8'))}
+
+
 class Gen(object):
     def __init__(self, rng, allow_unknown=False):
         self.rng = rng
@@ -43,6 +61,8 @@ class Gen(object):
             return ('basic', self.rng.choice(sorted(BASIC)))
         if r < 0.55:
             return ('ptr', self.rng.choice(['gpointer', 'utf8', 'structptr']))
+        if r < 0.58 and self.rng.random() < 0.5:
+            return ('foreign', self.rng.choice(['Mid', 'Inner', 'Wide', 'Mid']))
         if r < 0.63 and self.enums:
             return ('enum', self.rng.randrange(len(self.enums)))
         if r < 0.75:
@@ -104,6 +124,8 @@ class Gen(object):
             return '<array zero-terminated="1">%s</array>' % self.gir_type(t[1])
         if k in ('struct', 'union'):
             return '<type name="T.D%d" c:type="TD%d"/>' % (t[1], t[1])
+        if k == 'foreign':
+            return '<type name="B.%s" c:type="B%s"/>' % (t[1], t[1])
         if k == 'void':
             return '<type name="none" c:type="void"/>'
         raise ValueError(t)
@@ -111,8 +133,11 @@ class Gen(object):
     def gir(self):
         out = ['<?xml version="1.0"?>', '<repository version="1.2" xmlns="http://www.gtk.org/introspection/core/1.0" '
                'xmlns:c="http://www.gtk.org/introspection/c/1.0" xmlns:glib="http://www.gtk.org/introspection/glib/1.0">',
+               '<include name="B" version="1.0"/>',
                '<namespace name="T" version="1.0" shared-library="" c:identifier-prefixes="T" c:symbol-prefixes="t">',
-               '<record name="Opaque" c:type="TOpaque"/>']
+               '<record name="Opaque" c:type="TOpaque"/>',
+               '<record name="Inner" c:type="TInner"><field name="x" writable="1"><type name="gdouble" c:type="gdouble"/></field>'
+               '<field name="y" writable="1"><type name="gdouble" c:type="gdouble"/></field></record>']
         for i, vs in enumerate(self.enums):
             out.append('<enumeration name="E%d" c:type="TE%d">' % (i, i))
             for j, v in enumerate(vs):
@@ -143,12 +168,14 @@ class Gen(object):
             return self.c_decl(t[2], '%s[%d]' % (name, t[1]))
         if k in ('struct', 'union'):
             return 'TD%d %s' % (t[1], name)
+        if k == 'foreign':
+            return 'B%s %s' % (t[1], name)
         if k == 'callback':
             return 'void (*%s) (void)' % name
         raise ValueError(t)
 
     def c_program(self):
-        out = ['#include <stdio.h>', '#include <stddef.h>']
+        out = ['#include <stdio.h>', '#include <stddef.h>', B_C]
         for i, vs in enumerate(self.enums):
             out.append('typedef enum { %s } TE%d;' % (', '.join('T_E%d_M%d = %s' % (i, j, clit(v)) for j, v in enumerate(vs)), i))
         for i, (kind, fields) in enumerate(self.decls):
@@ -182,6 +209,8 @@ class Gen(object):
             return '(TArray None %s)' % self.coq_type(t[1])
         if k == 'void':
             return 'TUnknown'
+        if k == 'foreign':
+            return B_COQ[t[1]]
         if k in ('struct', 'union'):
             return '(%s %s)' % ('TStruct' if k == 'struct' else 'TUnion', self.coq_members(self.decls[t[1]][1]))
         raise ValueError(t)
@@ -200,7 +229,11 @@ def run_batch(g, exe_dump, tmp):
     """returns (impl: {'D': {i: (offs,size,align)}, 'E': {i: width}}, gcc: same) or raises"""
     gir = os.path.join(tmp, 'T-1.0.gir')
     open(gir, 'w').write(g.gir())
-    rc, out = run([os.path.join(CBUILD, 'g-ir-compiler'), gir, '-o', os.path.join(tmp, 'T-1.0.typelib')], timeout=120)
+    open(os.path.join(tmp, 'B-1.0.gir'), 'w').write(B_GIR)
+    rc, out = run([os.path.join(CBUILD, 'g-ir-compiler'), os.path.join(tmp, 'B-1.0.gir'), '-o', os.path.join(tmp, 'B-1.0.typelib')], timeout=120)
+    if rc != 0:
+        return None, 'g-ir-compiler failed on the included namespace (rc=%d): %s' % (rc, out[-1500:])
+    rc, out = run([os.path.join(CBUILD, 'g-ir-compiler'), '--includedir', tmp, gir, '-o', os.path.join(tmp, 'T-1.0.typelib')], timeout=120)
     if rc != 0:
         return None, 'g-ir-compiler failed (rc=%d): %s' % (rc, out[-1500:])
     rc, out2 = run([exe_dump, tmp, 'T'], timeout=60)
@@ -263,7 +296,10 @@ def main(tier, seed):
         finally:
             shutil.rmtree(tmp, ignore_errors=True)
         if res is None:
-            ck.tie_broken('correspondence', 'batch could not be run: ' + msg, dict(gir=g.gir()[:3000]))
+            if msg.startswith('g-ir-compiler failed') and all(g.known((kd, i)) for i, (kd, _) in enumerate(g.decls)):
+                ck.failing_input('g-ir-compiler rejects declarations whose members all have known sizes', dict(gir=g.gir()), detail=msg[-600:])
+            else:
+                ck.tie_broken('correspondence', 'batch could not be run: ' + msg, dict(gir=g.gir()[:3000]))
             continue
         impl, gcc = res
         for i, (kind, fields) in enumerate(g.decls):
